@@ -1,9 +1,47 @@
 (* C12 — A note's text form compiles back to the same note.
-   PARTIAL: the round trip through the real parser is decided by the harness
-   (compile -> to_string -> compile on generated notes); proved here are the
-   shape of the text form and, on exported trees, the refutation. *)
-From Zorg Require Import Base.PyStr Base.Res Base.Dates Model.FileListener Model.Witness Model.NoteText
-  Proofs.NoteTextFacts.
+   Proved for every abstract item (coq/Model/PageSyntax.v) whose words contain no white space: the text zorg emits
+   for the note the item denotes IS the canonical text of the item [emit_form it] (C12_emitted_text_is_an_item);
+   [emit_form it] is again a valid item (so the page theorem C01_page_yields_exactly_its_notes applies to every page
+   that contains it) and reads as the same note - kind, ZID, body, tags, links, properties, dates, and the priority
+   unless the todo is done or cancelled (C12_emitted_item_reads_as_the_same_note).  What is NOT proved is the parser
+   (text -> tree), which the harness checks on every run: generated notes are rendered by the real Note.to_string,
+   query execution and saved-query refresh, recompiled by the real compiler and compared. *)
+From Zorg Require Import Base.PyStr Base.Res Base.Dates Gen.Params Model.FileListener Model.Witness Model.NoteText
+  Proofs.NoteTextFacts Model.PageSyntax Proofs.PageFacts Model.PageText Proofs.PageTextFacts.
+
+Theorem C12_emitted_text_is_an_item : forall today ot op od key line it,
+  tidy it ->
+  let n := spec_note today ot op od key line it in
+  to_string (n_todo n) (n_body n) = render_item (emit_form it) ++ [ascii_of_nat 10].
+Proof. exact emitted_text_is_an_item. Qed.
+
+Theorem C12_emitted_item_is_valid : forall it, valid_item it -> valid_item (emit_form it).
+Proof. exact emit_form_valid. Qed.
+
+Theorem C12_emitted_item_reads_as_the_same_note : forall today ot op od key line it,
+  let n := spec_note today ot op od key line it in
+  let n' := spec_note today ot op od key line (emit_form it) in
+  n_body n' = n_body n /\ n_zid n' = n_zid n /\ n_create n' = n_create n /\ n_modify n' = n_modify n /\
+  n_areas n' = n_areas n /\ n_contexts n' = n_contexts n /\ n_people n' = n_people n /\ n_projects n' = n_projects n /\
+  n_links n' = n_links n /\ n_props n' = n_props n /\
+  match n_todo n, n_todo n' with
+  | None, None => True
+  | Some (p, k), Some (p', k') => k' = k /\ (is_done k = false -> p' = p)
+  | _, _ => False
+  end.
+Proof. exact emit_form_reading. Qed.
+
+Theorem C12_tidy_decidable : forall it, tidyb it = true -> tidy it.
+Proof. exact tidyb_sound. Qed.
+
+Example C12_item_example :
+  let it := mkItem (Some TBlocked) (Some (S "p7")) (IZid (S "240105#0A")) [WId (S "wait"); WTag KPerson (S "bob")] in
+  tidy it /\ valid_item it /\
+  render_item (emit_form it) = S "< P7 240105#0A wait %bob".
+Proof.
+  cbv zeta. split; [apply tidyb_sound; vm_compute; reflexivity|]. split; [apply valid_itemb_sound; vm_compute; reflexivity|].
+  vm_compute. reflexivity.
+Qed.
 
 Theorem C12_text_form_open : forall p st body, is_done st = false ->
   to_string (Some (p, st)) body = st ++ S " " ++ p ++ S " " ++ strip body ++ [ascii_of_nat 10].
@@ -33,6 +71,10 @@ Proof.
   split; [vm_compute; reflexivity|]. split; [reflexivity|]. repeat split.
 Qed.
 
+Print Assumptions C12_emitted_text_is_an_item.
+Print Assumptions C12_emitted_item_is_valid.
+Print Assumptions C12_emitted_item_reads_as_the_same_note.
+Print Assumptions C12_tidy_decidable.
 Print Assumptions C12_text_form_open.
 Print Assumptions C12_text_form_done.
 Print Assumptions C12_text_form_up_to_outer_whitespace.
